@@ -592,20 +592,46 @@ impl Context {
         lit: &Literal,
         ty: &CodegenTy,
     ) -> anyhow::Result<(FastStr, bool /* const? */)> {
+        // The IDL text is pasted between double quotes: a `"` that the IDL did not
+        // escape (legal inside a single-quoted IDL string) has to be escaped here.
+        fn escape_double_quotes(s: &str) -> String {
+            let mut out = String::with_capacity(s.len());
+            let mut chars = s.chars();
+            while let Some(c) = chars.next() {
+                match c {
+                    '\\' => {
+                        out.push(c);
+                        if let Some(next) = chars.next() {
+                            out.push(next);
+                        }
+                    }
+                    '"' => out.push_str("\\\""),
+                    _ => out.push(c),
+                }
+            }
+            out
+        }
         Ok(match (lit, ty) {
             (Literal::Path(p), ty) => {
                 let ident_ty = self.codegen_ty(p.did);
 
                 self.ident_into_ty(p.did, &ident_ty, ty)
             }
-            (Literal::String(s), CodegenTy::Str) => (format!("\"{s}\"").into(), true),
+            (Literal::String(s), CodegenTy::Str) => {
+                let s = escape_double_quotes(s);
+                (format!("\"{s}\"").into(), true)
+            }
             (Literal::String(s), CodegenTy::String) => {
+                let s = escape_double_quotes(s);
                 (format! {"\"{s}\".to_string()"}.into(), false)
             }
-            (Literal::String(s), CodegenTy::FastStr) => (
-                format! { "::pilota::FastStr::from_static_str(\"{s}\")" }.into(),
-                true,
-            ),
+            (Literal::String(s), CodegenTy::FastStr) => {
+                let s = escape_double_quotes(s);
+                (
+                    format! { "::pilota::FastStr::from_static_str(\"{s}\")" }.into(),
+                    true,
+                )
+            }
             (Literal::Int(i), CodegenTy::I8) => (format! { "{i}i8" }.into(), true),
             (Literal::Int(i), CodegenTy::I16) => (format! { "{i}i16" }.into(), true),
             (Literal::Int(i), CodegenTy::I32) => (format! { "{i}i32" }.into(), true),
@@ -707,7 +733,7 @@ impl Context {
                 (format! { "{b}" }.into(), true)
             }
             (Literal::String(s), CodegenTy::Bytes) => {
-                let s = &**s;
+                let s = escape_double_quotes(s);
                 (
                     format! { "::pilota::Bytes::from_static(\"{s}\".as_bytes())" }.into(),
                     true,
